@@ -21,6 +21,7 @@ from common import sx, parse_sx, err_name, VERIF
 KNOWN_LOCAL = []      # C18-shared-array-default is repaired in /repo fcb8b8f (recorded as `fixed`, suppresses nothing)
 
 _UNIQ = itertools.count()
+HEAPD = False         # the driver answers `heapd.run` (Model/HeapD.lean: declared defaults on array / record fields, 2-D arrays)
 
 INT_TYPES = {  # (width, signed, big endian) -> attribute of nasdaq_protocols.common.message.types
     (1, 0, 0): 'Byte',
@@ -72,6 +73,9 @@ def reset_globals():
 class World:
     """spec = list of class descriptions in the s-expression shape of the driver:
          ['rec', msgid|'-', fty...]   fty = ['int', w, s, b, dflt|'-'] | ['arr', ety, [w, s, b]] | ['recd', c]
+                                      | ['arr', ety, [w, s, b], dflt-tree]  (declared default: a list tree, rows / records inside)
+                                      | ['recd', c, dflt-tree]              (declared default on a record-typed field)
+                                      ety = ['int', w, s, b] | ['recd', c] | ['arr', ['int', w, s, b], [w, s, b]]  (2-D: rows)
          ['fmsg', h, b, t]            ['fseg', 'g'|'s', ['f', tag, 'int'|'str'] | ['g', tag, cls] ...]"""
 
     def __init__(self, spec):
@@ -84,6 +88,7 @@ class World:
         self.fix_fields = {}
         self.containers = {}
         self.base = None
+        self.default_objs = []              # the python objects given as declared defaults (class-level, must never be handed out)
         if any(c[0] == 'rec' and c[1] != '-' for c in spec):
             ns = {'itch': itch}
             exec(f"class Base(itch.Message, app_name={self.u!r}):\n"
@@ -112,10 +117,24 @@ class World:
                     fields.append(st.Field(name, self.int_type(*f[1:4]), **kw))
                 elif f[0] == 'arr':
                     e = f[1]
-                    et = self.int_type(*e[1:4]) if e[0] == 'int' else self.build(e[1])
-                    fields.append(st.Field(name, st.Array(et, self.int_type(*f[2]))))
+                    if e[0] == 'int':
+                        et = self.int_type(*e[1:4])
+                    elif e[0] == 'arr':
+                        et = st.Array(self.int_type(*e[1][1:4]), self.int_type(*e[2]))      # array="double": rows
+                    else:
+                        et = self.build(e[1])
+                    kw = {}
+                    if len(f) > 3:
+                        kw['default_value'] = self.value(f[3])
+                        self.default_objs.append(kw['default_value'])
+                    fields.append(st.Field(name, st.Array(et, self.int_type(*f[2])), **kw))
                 else:
-                    fields.append(st.Field(name, self.build(f[1])))
+                    kw = {}
+                    rc = self.build(f[1])
+                    if len(f) > 2:
+                        kw['default_value'] = self.value(f[2])
+                        self.default_objs.append(kw['default_value'])
+                    fields.append(st.Field(name, rc, **kw))
             if d[1] == '-':
                 cls = type(f'{self.u}_R{c}', (st.Record,), {'Fields': fields})
             else:
@@ -187,6 +206,13 @@ class World:
             dct = {k: self.value(v, True) for k, v in t[2:]}
             return dct if as_dict else self.py[c].from_value(dct)
         raise ValueError(t)
+
+
+def has_declared_defaults(spec):
+    """declared defaults on array / record fields, or 2-D arrays: class-level mutable objects live in the Field objects of the world
+    (a world is then used for ONE history), and Model/Heap.lean cannot express the schema (Model/HeapD.lean can)"""
+    return any(c[0] == 'rec' and any((f[0] == 'arr' and (len(f) > 3 or f[1][0] == 'arr')) or (f[0] == 'recd' and len(f) > 2) for f in c[2:])
+               for c in spec)
 
 
 def is_mutable(x):
@@ -444,6 +470,8 @@ def impl_result_sx(status, rd, views):
 def model_results(ctx, spec, ops):
     if not ctx.driver.available:
         return None
+    if has_declared_defaults(spec) and not HEAPD:
+        return None
     line = f'heap.run {spec_sx(spec)} {ops_sx(ops)}'
     ans = ctx.driver.ask([line])[0]
     return parse_sx(ans)[0] if ans != 'bad-request' else 'bad-request'
@@ -477,9 +505,14 @@ def execute(spec, ops, world=None):
     """run `ops` on fresh instances; returns (results, findings) — findings = oracle failures
     [(op index, kind, description)] where kind is the known-finding kind or 'cross-instance-change' / 'shared-object' / …"""
     reset_globals()
-    w = world or World(spec)
+    w = world if (world is not None and not has_declared_defaults(spec)) else World(spec)
     r = Runner(w)
     pristine = {}
+    if has_declared_defaults(spec):
+        # declared defaults are class-level objects of THIS world: what a pristine instance reads / encodes is recorded before any
+        # operation has run
+        for c in w.top_classes():
+            pristine[c] = pristine_view(w, c, r)
     results, findings = [], []
     prev = []
     for idx, op in enumerate(ops):
@@ -510,6 +543,12 @@ def execute(spec, ops, world=None):
             f = sharing(r)
             if f is not None:
                 findings.append((idx, f[0], f'after op {idx} {sx(op)[:80]}: {f[1]}'))
+        # (4) what an instance encodes is a function of what it reads: an instance built afterwards from the values the target
+        # reads now encodes the same bytes (nothing remembered from before an in-place change takes part in the encoding)
+        if op[0] in ('assign', 'append', 'setidx') and status == 'ok' and tgt is not None and tgt < len(views):
+            f = twin_differs(r, tgt, views[tgt])
+            if f is not None:
+                findings.append((idx, 'encoding-depends-on-history', f'after op {idx} {sx(op)[:80]}: {f}'))
         prev = views
     return results, findings, r
 
@@ -531,6 +570,62 @@ def pristine_view(w, c, r):
             d[:] = saved
 
 
+def plain_tree(t):
+    """a read (Runner.walk) that World.value can turn back into values: ints, lists, records of the binary kind"""
+    if isinstance(t, int) and not isinstance(t, bool):
+        return True
+    if isinstance(t, list) and t and t[0] == 'l':
+        return all(plain_tree(x) for x in t[1:])
+    if isinstance(t, list) and t and t[0] == 'o' and isinstance(t[1], int):
+        return all(plain_tree(v) for _k, v in t[2:])
+    return False
+
+
+def twin_differs(r, i, view):
+    """binary instances only: a new instance of the same class, every field assigned the value instance i reads now, must encode
+    what instance i encodes now"""
+    w = r.w
+    obj = r.insts[i]
+    c = w.cid.get(type(obj))
+    d = view[1]
+    if c is None or c not in w.msg or not (isinstance(d, list) and d and d[0] == 'o') or not plain_tree(d):
+        return None
+    try:
+        twin = w.construct(c)
+        for k, t in d[2:]:
+            r.set_fld(twin, k, w.value(t))
+    except Exception:  # noqa  (a value that reads fine but is refused on assignment: nothing to compare)
+        return None
+    try:
+        enc = bytes(twin.to_bytes()[1])
+    except Exception as e:  # noqa
+        enc = 'err-' + err_name(e)
+    if sx(enc) != sx(view[2]):
+        return (f'instance {i} encodes {sx(view[2])[:80]}, an instance built now from the values it reads encodes {sx(enc)[:80]} '
+                f'(reads: {sx(d)[:120]})')
+    return None
+
+
+def class_default_ids(w, r):
+    """identities of the declared default objects of the world and of every mutable object inside them"""
+    out = {}
+    st = lib()[0]
+
+    def go(x, n):
+        if not is_mutable(x) or n == 0 or id(x) in out:
+            return
+        out[id(x)] = x
+        if isinstance(x, list):
+            for y in x:
+                go(y, n - 1)
+        elif isinstance(x, st._Record):
+            for y in x.values.values():
+                go(y, n - 1)
+    for o in w.default_objs:
+        go(o, w.depth)
+    return out
+
+
 def sharing(r):
     sets = []
     for obj in r.insts:
@@ -538,10 +633,16 @@ def sharing(r):
         r.reach(obj, r.w.depth, out)
         sets.append(out)
     shared = class_level_default()
+    declared = class_default_ids(r.w, r) if r.w.default_objs else {}
     for i, s in enumerate(sets):
         if shared is not None and id(shared) in s:
             return ('shared-array-default', f'instance {i} reads the class-level list Array.default_value itself '
                                             f'(a mutable object shared with every other instance)')
+        hit = set(s) & set(declared)
+        if hit:
+            o = declared[next(iter(hit))]
+            return ('shared-declared-default', f'instance {i} reaches a mutable {type(o).__name__} object that belongs to a declared '
+                                               f'default of a field (a class-level object shared with every other instance)')
         for j in range(i):
             common_ids = set(s) & set(sets[j])
             if common_ids:
@@ -587,6 +688,26 @@ def gen_field(rng, n_lower, kind=None):
             return ['arr', ['recd', rng.randrange(n_lower)], cnt]
         return ['arr', ['int'] + gen_int_ty(rng), cnt]
     return ['recd', rng.randrange(n_lower)]
+
+
+def add_declared_defaults(rng, spec):
+    """the same schema with DECLARED defaults: on array fields (lists of ints, of records, of rows for two-dimensional arrays), on
+    record-typed fields (a record that holds lists and records itself), at the top level and on fields inside nested records;
+    some one-dimensional int arrays become two-dimensional"""
+    out = []
+    for c, d in enumerate(spec):
+        fs = []
+        for f in d[2:]:
+            f = list(f)
+            if f[0] == 'arr' and f[1][0] == 'int' and rng.random() < 0.3:
+                f[1] = ['arr', f[1], rng.choice([[2, 0, 0], [2, 0, 1], [2, 1, 0]])]
+            if f[0] == 'arr' and rng.random() < 0.6:
+                f = f[:3] + [['l'] + [gen_tree_for_ety(rng, out + [d], f[1]) for _ in range(rng.choice([1, 1, 2, 3]))]]
+            elif f[0] == 'recd' and rng.random() < 0.6:
+                f = f[:2] + [gen_record_tree(rng, out, f[1])]
+            fs.append(f)
+        out.append(d[:2] + fs)
+    return out
 
 
 def gen_fields(rng, n_lower, n):
@@ -640,6 +761,8 @@ def gen_int_value(rng, w, s, b):
 def gen_tree_for_ety(rng, spec, e):
     if e[0] == 'int':
         return gen_int_value(rng, *e[1:4])
+    if e[0] == 'arr':
+        return ['l'] + [gen_int_value(rng, *e[1][1:4]) for _ in range(rng.choice([0, 1, 2, 2, 3]))]
     return gen_record_tree(rng, spec, e[1])
 
 
@@ -856,6 +979,15 @@ def gen_copy(rng, r):
 def elem_tree(rng, r, inst, path, obj):
     """a fresh element for the list reached by `path` (element type from the schema of the field that holds the list)"""
     w, spec = r.w, r.w.spec
+    if len(path) >= 2 and path[-1][0] == 'i' and path[-2][0] == 'f':
+        # a row of a two-dimensional array: reached by indexing the list a field holds
+        try:
+            kt = key_type(w, r.walk_path(inst, path[:-2]), path[-2][1])
+        except Exception:  # noqa
+            return None
+        if kt is not None and kt[0] == 'arr' and kt[1][0] == 'arr':
+            return gen_int_value(rng, *kt[1][1][1:4])
+        return None
     if not path or path[-1][0] != 'f':
         return None
     try:
@@ -875,7 +1007,7 @@ def elem_tree(rng, r, inst, path, obj):
 def gen_history(rng, spec, world, length, allow_default_mutation):
     """generate by executing: returns ops"""
     reset_globals()
-    r = Runner(world)
+    r = Runner(World(spec) if has_declared_defaults(spec) else world)
     ops = []
     max_insts = rng.choice([2, 3, 4, 4, 5])
     for _ in range(length):
@@ -1035,7 +1167,7 @@ def case_of(rep):
 def run(ctx):
     rng = ctx.rng
     quick = ctx.tier == 'quick'
-    n_worlds = {'bin': 85 if quick else 480, 'fix': 55 if quick else 320}
+    n_worlds = {'bin': 70 if quick else 420, 'bin-defaults': 45 if quick else 300, 'fix': 50 if quick else 320}
     per_world = 4 if quick else 6
     ctx.cov['rule'] = ('histories of 12-40 operations (new / read / assign / append / setidx / encode / mkbuf / decode / scribble; FIX also '
                        'copy = assign to a segment of one instance an object read from another instance, and clone = a message built '
@@ -1072,9 +1204,11 @@ def run(ctx):
         ctx.count('corpus')
         check_history(ctx, spec, ops, proto)
     # ---- generated
-    for proto in ('bin', 'fix'):
+    for proto in ('bin', 'bin-defaults', 'fix'):
         for _ in range(n_worlds[proto]):
-            spec = gen_bin_spec(rng) if proto == 'bin' else gen_fix_spec(rng)
+            spec = gen_fix_spec(rng) if proto == 'fix' else gen_bin_spec(rng)
+            if proto == 'bin-defaults':
+                spec = add_declared_defaults(rng, spec)
             try:
                 world = World(spec)
             except Exception as e:  # noqa
@@ -1082,7 +1216,7 @@ def run(ctx):
                               {'kind': 'harness-exception', 'proto': proto, 'spec': spec_sx(spec), 'ops': '()'})
                 continue
             for _h in range(per_world):
-                allow = proto == 'bin' and rng.random() < 0.25
+                allow = proto != 'fix' and rng.random() < 0.25
                 length = rng.randint(12, 40)
                 try:
                     ops = gen_history(rng, spec, world, length, allow)
